@@ -214,10 +214,10 @@ type mctx struct {
 	results  []mShape
 	resultSt []*mStructT
 	hasErr   bool
-	recvName string                        // Go name of a pointer receiver
-	stateOf  func(en mEnv) string          // closure: the captured state at a return
-	retf     func(packed string) string    // how a `return` is emitted here
-	cont     func(en mEnv) string          // `continue`; nil outside a loop
+	recvName string                     // Go name of a pointer receiver
+	stateOf  func(en mEnv) string       // closure: the captured state at a return
+	retf     func(packed string) string // how a `return` is emitted here
+	cont     func(en mEnv) string       // `continue`; nil outside a loop
 	at       ast.Node
 }
 
